@@ -148,6 +148,12 @@ def gen_retry(rng):
         r['sleepMax'] = rng.choice([1, 2, 3, HALF, 0, {'f': [5, 2]}])
     if rng.random() < 0.25:
         r['backoffArgs'] = {'d': [['base', rng.choice([2, 3, {'f': [3, 2]}])]]}
+    if rng.random() < 0.12:
+        # cap stress: the jitter range must be taken from the CAPPED duration
+        r = {'max': rng.choice([3, 4, 5, 6]), 'sleep': rng.choice([2, 3, {'f': [3, 2]}]),
+             'backoff': rng.choice(['linearjitter', 'exponentialjitter', 'jitter', 'linear', 'exponential']),
+             'jrc': rng.choice([{'f': [3, 4]}, {'f': [7, 8]}, HALF, 1]),   # dyadic: exact in binary floating point
+             'sleepMax': rng.choice([1, 2, {'f': [5, 2]}, 4])}
     if rng.random() < 0.25:
         r['stopOn'] = {'l': rng.sample(ERRS, rng.randrange(1, 3))}
     if rng.random() < 0.25:
@@ -261,6 +267,11 @@ def gen_step(rng, p, pipe, group, idx, targets, handlers, later_pipes, depth_tag
         cases = []
         for _ in range(rng.randrange(1, 4)):
             cases.append({'d': [['case', gen_bool_expr(rng, loops)],
+                                ['call', gen_cof_config(rng, targets, handlers, p)]]})
+        if rng.random() < 0.3:
+            # a case that cannot be evaluated: harmless when an earlier case already matched
+            cases.insert(rng.randrange(1, len(cases) + 1),
+                         {'d': [['case', rng.choice(['{nokey}', '{lst[9]}', py(['cmp', 'eq', name('undefined_name'), ['int', 1]])])],
                                 ['call', gen_cof_config(rng, targets, handlers, p)]]})
         if rng.random() < 0.5:
             cases.append({'d': [['default', gen_cof_config(rng, targets, handlers, p)]]})
